@@ -327,3 +327,63 @@ def broad_cfgs(probs=("rosen", "nzr"), budgets=(7, 25, 60), salt=0, exclude=(), 
                 cfg["broad_flags"] = sorted(flags)
                 out.append((name, cfg))
     return out
+
+
+# ------------------------------------------------------------------------------------------------------------------
+# Linear-algebra faults.  The package declares LinAlgError out of Model.solve_geom_system as an environment failure it
+# recovers from (three `except LA.LinAlgError` chains: the fit, the geometry step, the choice of the point to replace; eight
+# exits / error-recovery restarts in solve_main hang off them).  No objective answer can make the interpolation points
+# affinely dependent, so without owning this answer none of that code is ever executed (tools/linecov.sh showed 130 lines
+# of solve_main never run by any check).  These rows make every declared call a choice point (solvex, kind "la").
+# ------------------------------------------------------------------------------------------------------------------
+_LA_MODES = {
+    "none": {},
+    "soft": {"up": RESTART_MODES["soft"]},
+    "soft_inc": {"up": RESTART_MODES["soft_inc"]},
+    "soft_nomove": {"up": RESTART_MODES["soft_nomove"]},
+    "hard_old": {"up": RESTART_MODES["hard_old"]},
+    "hard_new": {"up": RESTART_MODES["hard_new"]},
+    "bounds_scaling_soft": dict(_BOX2, scaling=True, up=dict(_R)),
+    "npt5_extra_soft": {"npt": 5, "up": dict(_R, **{"regression.num_extra_steps": 1})},
+    "grow_newdirs_soft": {"up": dict(_R, **{"growing.ndirs_initial": 1, "growing.num_new_dirns_each_iter": 1, "growing.do_geom_steps": True})},
+    # two new directions per iteration: the set becomes complete between the first and the second, which then has to choose
+    # a point to replace inside add_new_direction_while_growing
+    "grow_newdirs2_soft": {"up": dict(_R, **{"growing.ndirs_initial": 1, "growing.num_new_dirns_each_iter": 2, "growing.do_geom_steps": True})},
+    "grow_newdirs2": {"up": {"growing.ndirs_initial": 1, "growing.num_new_dirns_each_iter": 2, "growing.do_geom_steps": True}},
+    "grow_full_geom_soft": {"up": dict(_R, **{"growing.ndirs_initial": 1, "growing.safety.full_geom_step": True, "general.safety_step_thresh": 5.0,
+                                             "growing.delta_scale_new_dirns": 20.0}), "prob": "nzr3"},
+    "avg2_soft": {"nsamples": "const2", "noise_amp": 0.02, "memo": False, "up": dict(_R)},
+    "sets_soft": {"sets": _SETS2, "up": dict(_R)},
+    "l1fast_soft": {"reg": {"r": "l1", "lam": 0.05}, "up": dict(_R, **_F)},
+}
+
+
+def linalg_fault_cfgs(salt=0, tier="quick", probs=("rosen", "nzr"), maxfun=30, extra_up=None, modes=None, obj_letters=("best", "nan")):
+    """(cfg, plan) rows: every declared linear-algebra call answered 'singular' once (thorough: also every pair of one
+    objective-answer deviation and one linear-algebra fault on the restart modes)."""
+    out = []
+    for name, m in _LA_MODES.items():
+        if modes is not None and name not in modes:
+            continue
+        plist = [m["prob"]] if "prob" in m else list(probs)
+        for prob in plist:
+            n = DIM[prob]
+            npt = m.get("npt", n + 1)
+            cfg = base_cfg(prob, salt, npt=npt, rhobeg=0.3, rhoend=0.02, maxfun=maxfun if "reg" not in m else 14, memo=m.get("memo", True),
+                           tag_mode="la/" + name)
+            for k in ("lo", "hi", "scaling", "sets", "reg", "nsamples", "noise_amp"):
+                if k in m:
+                    cfg[k] = m[k]
+            up = user_params(npt, m.get("up", {}), extra_up or {})
+            if up:
+                cfg["user_params"] = up
+            flags = ["la"]
+            flags += ["random"] if name.startswith("grow") or name == "soft_inc" else []
+            flags += ["avg", "noisy"] if "nsamples" in m else []
+            flags += ["sets"] if "sets" in m else []
+            flags += ["regfast"] if "reg" in m else []
+            cfg["broad_flags"] = flags
+            deep = tier == "thorough" and name in ("none", "soft", "hard_new") and prob == "rosen"
+            plan = {"depth": 2 if deep else 1, "letters": list(obj_letters) if deep else [], "la_letters": ["singular"]}
+            out.append((cfg, plan))
+    return out
